@@ -233,8 +233,22 @@ def run_case(case):
         a = np.array([r.choice([-np.inf, -2.0, -1.0, 0.0, 1.0, 2.0, 0.5]) for _ in range(int(np.prod(shape)) if shape else 1)]).reshape(shape)
         segs = {"segment_ids": jnp.asarray(L["seg_ids"]), "num_segments": len(L["feas"])} if has_sparse else None
         out["sig"] = f"discrete sparse={has_sparse} ndense={len(L['dense_choices'])} jit={jit}"
+        mj_impl = mj
+        if t == mj["n_periods"] - 1 and r.random() < 0.5:
+            # an *auxiliary* discrete state (it enters transition functions only): the last period's space does not contain it,
+            # so the values array, the choice axes and the result are those of the specification without it
+            import copy
+
+            mj_impl = copy.deepcopy(mj)
+            n_ax = r.choice([2, 3, 4])
+            mj_impl["states"].insert(r.randint(0, len(mj_impl["states"])), ["axq", {"k": "disc", "n": n_ax}])
+            other = r.choice([k for k, _ in mj["states"]])
+            args_ax = ["axq", other] if r.random() < 0.5 else ["axq"]
+            r.shuffle(args_ax)
+            mj_impl["functions"].append({"name": "next_axq", "args": args_ax, "body": ["min", ["var", "axq"], ["num", str(n_ax - 1)]], "stochastic": False, "ints": True})
+            out["hist"]["auxiliary_state_last_period"] = 1
         try:
-            vi = get_variable_info(build_model(mj))
+            vi = get_variable_info(build_model(mj_impl))
             fn = get_solve_discrete_problem(random_utility_shock_type=ShockType.NONE, variable_info=vi, is_last_period=(t == mj["n_periods"] - 1), choice_segments=segs)
             res = np.asarray((jax.jit(lambda v: fn(v, params={})) if jit else (lambda v: fn(v, params={})))(jnp.asarray(a)))
         except Exception as e:  # noqa: BLE001
@@ -249,7 +263,7 @@ def run_case(case):
         got = [ext(x) for x in (res.ravel() if res.shape else [float(res)])]
         if list(res.shape) != o["out"]["shape"] or got != o["out"]["data"]:
             vs.append({"clause": "max over the choice axes then segment max = max over all discrete choice combinations of each state",
-                       "detail": f"restricted {L['sparse_states'] + L['sparse_choices']} dense {L['dense_states']}|{L['dense_choices']}|{L['cont_states']} values shape {shape}: implementation shape {list(res.shape)} {got[:8]}, model axes {o['axes']} shape {o['out']['shape']} {o['out']['data'][:8]}", "key": "C18:discrete"})
+                       "detail": f"{'(auxiliary state axq declared, last period) ' if mj_impl is not mj else ''}restricted {L['sparse_states'] + L['sparse_choices']} dense {L['dense_states']}|{L['dense_choices']}|{L['cont_states']} values shape {shape}: implementation shape {list(res.shape)} {got[:8]}, model axes {o['axes']} shape {o['out']['shape']} {o['out']['data'][:8]}", "key": "C18:discrete"})
         out["sample"] = {"values_shape": shape, "choice_axes_model": o["axes"], "result_shape": list(res.shape)}
         return out
     # fused producer: the array handed to `argmax` is computed inside the same jitted function and is NOT returned from it
